@@ -342,12 +342,65 @@ def run_cfn_console(ctx):
     return n
 
 
+def run_param_layouts(ctx):
+    """how the parameter files are given: a directory of parameter files some of which are symbolic links, a link to a parameter
+    file, sources that are an empty struct (`{}` as a parameter file, first or last, or as the data file), a parameter directory
+    with sub-directories - the verdicts are those of the union document in every case"""
+    rules = 'rule within {\n  size <= Limits.max <<too big>>\n}\nrule named {\n  Names.owner exists\n}\n'
+    d = os.path.join(ctx.wd, 'pl')
+    files = {'r.guard': rules, 'data.json': '{"size": 5}', 'bad.json': '{"size": 50}', 'empty.json': '{}', 'empty.yaml': '{}\n',
+             'outside/limits.json': '{"Limits": {"max": 10}}', 'outside/names.yaml': 'Names:\n  owner: me\n',
+             'pdir/limits.json': '{"Limits": {"max": 10}}', 'pcopy/limits.json': '{"Limits": {"max": 10}}', 'pcopy/names.yaml': 'Names:\n  owner: me\n',
+             'pnest/a/limits.json': '{"Limits": {"max": 10}}', 'pnest/b/names.yaml': 'Names:\n  owner: me\n',
+             'union_ok.json': '{"Limits": {"max": 10}, "Names": {"owner": "me"}, "size": 5}', 'union_bad.json': '{"Limits": {"max": 10}, "Names": {"owner": "me"}, "size": 50}',
+             'all.json': '{"Limits": {"max": 10}, "Names": {"owner": "me"}, "size": 5}'}
+    e2e.write_files(d, files)
+    for link, target in (('pdir/names.yaml', '../outside/names.yaml'), ('linked_limits.json', 'outside/limits.json')):
+        p_ = os.path.join(d, link)
+        if os.path.lexists(p_):
+            os.remove(p_)
+        os.symlink(target, p_)
+    layouts = {
+        'directory with a symbolic link': ['-i', 'pdir'],
+        'directory with copies': ['-i', 'pcopy'],
+        'nested directories': ['-i', 'pnest'],
+        'a link to a parameter file': ['-i', 'linked_limits.json', '-i', 'outside/names.yaml'],
+        'an empty struct as the last parameter file': ['-i', 'outside/limits.json', '-i', 'outside/names.yaml', '-i', 'empty.json'],
+        'an empty struct as the first parameter file': ['-i', 'empty.yaml', '-i', 'outside/limits.json', '-i', 'outside/names.yaml'],
+    }
+    jobs, meta = [], []
+    for mlab, flags in (('plain', []), ('structured', ['--structured', '-o', 'json', '-S', 'none'])):
+        for ref in ('union_ok.json', 'union_bad.json'):
+            jobs.append({'args': ['validate', '-r', 'r.guard', '-d', ref] + flags, 'cwd': d}); meta.append((mlab, 'ref', ref))
+        for lab, iargs in layouts.items():
+            for data, ref in (('data.json', 'union_ok.json'), ('bad.json', 'union_bad.json')):
+                jobs.append({'args': ['validate', '-r', 'r.guard', '-d', data] + iargs + flags, 'cwd': d}); meta.append((mlab, lab, ref))
+        jobs.append({'args': ['validate', '-r', 'r.guard', '-d', 'empty.json', '-i', 'all.json'] + flags, 'cwd': d}); meta.append((mlab, 'an empty struct as the data file', 'union_ok.json'))
+    res = dict(zip(meta, e2e.run_many(jobs)))
+    n = 0
+    for (mlab, lab, ref), (code, so, se) in res.items():
+        if lab == 'ref':
+            continue
+        n += 1
+        rc, rso, rse = res[(mlab, 'ref', ref)]
+        info = {'class': 'merge-layout', 'layout': lab, 'mode': mlab, 'reference': ref, 'stdout': so[:500].decode('utf-8', 'replace'), 'stderr': se[-300:].decode('utf-8', 'replace')}
+        if code != rc:
+            ctx.failing('parameters given as %s (%s): exit %s, the union document exits %s' % (lab, mlab, code, rc), info, found=True)
+        elif mlab == 'structured':
+            a, b = structured_statuses(so), structured_statuses(rso)
+            if a is None or b is None or [x[1] for x in a] != [x[1] for x in b]:
+                ctx.failing('parameters given as %s: verdicts %s, the union document %s' % (lab, a, b), info, found=True)
+    ctx.coverage['parameter_layout_runs'] = n
+    ctx.coverage['evaluations'] += n
+    return n
+
+
 def run(ctx):
     ctx.build(cli=True)
     pr = ctx.proofs('C17')
     thorough = ctx.tier == 'thorough'
     n1 = hook_universe(ctx)
-    n2 = run_e2e(ctx, 150 if thorough else 30) + run_whole_document(ctx) + run_cfn_console(ctx)
+    n2 = run_e2e(ctx, 150 if thorough else 30) + run_whole_document(ctx) + run_cfn_console(ctx) + run_param_layouts(ctx)
     ctx.coverage['distinct_nontrivial'] = n1 + n2
     ctx.coverage['rule'] = ('merge kernel: every ordered pair of a %d-document universe (maps with disjoint / overlapping keys, lists, scalars, nested), all distinct; '
                             'end-to-end: generated (rules, document) with the top-level keys split at random into 1..3 parameter files + data, 25%% with a key defined '
